@@ -66,7 +66,12 @@ def main(argv=None):
         if not getattr(mod, "NO_BIND", False):
             bind.bind()
         spec = json.loads(a.shard_spec)
+        registered = isinstance(spec, dict) and spec.get("_registered")
+        if registered:
+            import vector
+            vector.register_awkward()
         res = mod.run_shard(spec, a.tier, a.seed + 100003 * int(spec.get("_rep", 0)) if isinstance(spec, dict) else a.seed)
+        res.count("shards_with_awkward_registered" if registered else "shards_without_awkward_registration")
         with open(a.out, "w") as f:
             json.dump(res.to_json(), f, default=str)
         return 0
@@ -83,6 +88,9 @@ def main(argv=None):
                 specs.append(s)
         total = Result()
         for s in specs:
+            if isinstance(s, dict) and s.get("_registered"):
+                import vector
+                vector.register_awkward()  # (cannot be undone: a replay with mixed specs runs the remaining ones registered)
             total.merge(mod.run_shard(s, rep.get("tier", a.tier), rep.get("seed", a.seed)))
         for v in total.violations:
             print("REPLAYED", json.dumps(v, default=str)[:1500])
@@ -96,6 +104,10 @@ def main(argv=None):
         # value-sampling checks whose lattice is exhaustive in both tiers: the thorough tier repeats the whole lattice
         # with fresh value draws (the shard derives its generators from seed + 100003 * repetition)
         specs = [dict(s, _rep=k) for k in range(reps) for s in specs]
+    if getattr(mod, "AWKWARD_REGISTRATION_MIX", False):
+        # vector.register_awkward() is a documented configuration of the Awkward backend (behaviors in Awkward's global
+        # registry, arrays carry behavior=None): alternate shards (shifted by seed and repetition) run in that mode
+        specs = [dict(s, _registered=((i + a.seed + int(s.get("_rep", 0))) % 2 == 1)) if isinstance(s, dict) else s for i, s in enumerate(specs)]
     timeout = getattr(mod, "SHARD_TIMEOUT", {"quick": 600, "thorough": 3600})[a.tier]
     total = Result()
     work = tempfile.mkdtemp(prefix=f"vmon-{prop}-")
